@@ -78,6 +78,8 @@ TURet == Is("URet") /\ Timed(URet(E.c, E.res, E.code, E.msg, E.n, E.pay))
 TSOpenRet == Is("SOpenRet") /\ Timed(SOpenRet(E.c, E.res))
 TSSend == Is("SSend") /\ Timed(SSend(E.c, E.pay))
 TSSendRet == Is("SSendRet") /\ Timed(SSendRet(E.c, IF E.res = "ok" THEN "ok" ELSE "err", E.x))
+TSSendBad == Is("SSendBad") /\ Timed(SSendBad(E.c))
+TSSendBadRet == Is("SSendBadRet") /\ Timed(SSendBadRet(E.c, IF E.res = "ok" THEN "ok" ELSE "err"))
 TSClose == Is("SClose") /\ Timed(SClose(E.c))
 TSCloseRet == Is("SCloseRet") /\ Timed(SCloseRet(E.c, E.res))
 TSRecv == Is("SRecv") /\ E.c \in DOMAIN calls /\ now' = E.t /\ Stutter
@@ -111,7 +113,7 @@ TraceNext ==
   \/ TUCall \/ TSOpen \/ TCancel \/ TCW \/ TCWraw \/ TSR \/ TSW \/ TSWraw \/ TCR
   \/ THStart \/ THRecv \/ THRecvRet \/ THSend \/ THSendRet \/ THSetHdr \/ THSendHdr \/ THSendHdrRet
   \/ THSetTrl \/ THRet \/ THCtxDone
-  \/ TURet \/ TSOpenRet \/ TSSend \/ TSSendRet \/ TSClose \/ TSCloseRet \/ TSRecv \/ TSRecvRet
+  \/ TURet \/ TSOpenRet \/ TSSend \/ TSSendRet \/ TSSendBad \/ TSSendBadRet \/ TSClose \/ TSCloseRet \/ TSRecv \/ TSRecvRet
   \/ TSHdr \/ TSHdrRet \/ TSTrl
   \/ TFault \/ TUnfault \/ TWFail \/ TServeRet \/ THk \/ TPend \/ THLive \/ TCReg \/ TQuiesce
 
